@@ -46,11 +46,46 @@ def words_at(p, obj, base, n, start=False):
 
 
 class Handler(mode.Handler):
-    def __init__(self):
+    def __init__(self, inline=None):
         mode.Handler.__init__(self, 256)
+        self.inline = inline or {}      # callee name -> Fn: straight-line state initialisers applied at the call (init <-> reinit)
+        self.depth = 0
+
+    def _apply_inline(self, ex, p, g, args):
+        """the callee is a straight path that only stores constants into its state argument: apply those stores"""
+        if self.depth > 2:
+            raise Broken("hash init/reinit call each other recursively")
+        obj, off = mode.ptr_of(ex, p, args[0])
+        if obj is None or off.const() != 0:
+            raise Broken("%s called on something that is not the start of a hash state" % g.name)
+        self.depth += 1
+        try:
+            sub = make_exec(g, inline=self.inline, handler=self)
+            ps = sub.run()
+        finally:
+            self.depth -= 1
+        if len(ps) != 1 or ps[0].end[0] != "ret":
+            raise Broken("%s is not a straight path" % g.name)
+        q = ps[0]
+        for (o, k), cell in q.mem.items():
+            if o == ST:
+                if gf2.is_const(list(cell)) is None:
+                    raise Broken("%s stores a non-constant into the hash state" % g.name)
+                p.mem[(obj, k)] = cell
+        for (o, k, nb), lf in q.lfmem.items():
+            if o == ST:
+                if lf.const() is None:
+                    raise Broken("%s stores a non-constant into the hash state" % g.name)
+                p.lfmem[(obj, k, nb)] = lf
+        for e in q.events:
+            if e[0] in ("CALL", "P", "memcpy-var", "memset-var"):
+                p.events.append(e)
 
     def __call__(self, ex, p, I, callee, args):
         name = callee or "<indirect>"
+        if name in self.inline and ex.f.name != name:
+            self._apply_inline(ex, p, self.inline[name], args)
+            return None
         if name.startswith("tinyjambu_permutation_"):
             return mode.Handler.__call__(self, ex, p, I, callee, args)
         n = p.ncall
@@ -62,8 +97,8 @@ class Handler(mode.Handler):
         return None
 
 
-def make_exec(f, starts=None, arg_consts=None, pre=()):
-    return irx.Exec(f, Handler(), havoc="auto", auto=True, split_max=16, starts=starts, arg_consts=arg_consts,
+def make_exec(f, starts=None, arg_consts=None, pre=(), inline=None, handler=None):
+    return irx.Exec(f, handler or Handler(inline), havoc="auto", auto=True, split_max=16, starts=starts, arg_consts=arg_consts,
                     int_cells=lambda ob, off, n: ob == ST and (off, n) == POSN,
                     callee_writes={"tinyjambu_permutation_256": {0: (0, 16)}}, pre_conds=pre)
 
@@ -295,7 +330,8 @@ def run_init(ck_ob, mod, label):
 
     def c(rule, cond, construct, ok, bad, where=None):
         return ck_ob(cond, rule, f.name, "%s[%s]" % (construct, label), ok, bad, where or where0)
-    ex = make_exec(f)
+    inl = {n_: mod.fn(n_) for n_ in ("tinyjambu_hash_init", "tinyjambu_hash_reinit")}
+    ex = make_exec(f, inline=inl)
     paths = ex.run()
     if len(paths) != 1 or paths[0].end[0] != "ret":
         raise Broken("tinyjambu_hash_init is not a straight path")
@@ -307,15 +343,23 @@ def run_init(ck_ob, mod, label):
     c("INIT", p.lfmem.get((ST, 48, 4)) == Lf.c(0), "init-posn", "buffer position = 0", "buffer position after init is %s (left from the previous use of the object)" % p.lfmem.get((ST, 48, 4)))
     # reinit and one-shot
     g = mod.fn("tinyjambu_hash_reinit")
-    ex2 = make_exec(g)
+    ex2 = make_exec(g, inline=inl)
     ps = ex2.run()
     ev = [e for pp in ps for e in pp.events if e[0] == "CALL"]
     direct = False
+    missing = []
     if len(ps) == 1 and not ev:
         q = ps[0]
-        direct = mode.words_eq(words_at(q, ST, 0, 4), [W(0)] * 4) and mode.words_eq(words_at(q, ST, 16, 4), [W(0xFFFFFFFF)] * 4) and q.lfmem.get((ST, 48, 4)) == Lf.c(0)
-    ck_ob(direct or (len(ps) == 1 and len(ev) == 1 and ev[0][2] == "tinyjambu_hash_init" and ev[0][3][0] == repr(Lf.s(ST))), "INIT", g.name, "reinit[%s]" % label,
-          "reinit resets the state completely (same as init)", "reinit does not reset the whole state like init does (events %s)" % [(e[2], e[3]) for e in ev],
+        if not mode.words_eq(words_at(q, ST, 0, 4), [W(0)] * 4):
+            missing.append("L = 0")
+        if not mode.words_eq(words_at(q, ST, 16, 4), [W(0xFFFFFFFF)] * 4):
+            missing.append("R = 0 (k[0..3] all-ones)")
+        if q.lfmem.get((ST, 48, 4)) != Lf.c(0):
+            missing.append("buffer position = 0")
+        direct = not missing
+    ck_ob(direct, "INIT", g.name, "reinit[%s]" % label,
+          "reinit resets the state completely (same as init), whatever the object held",
+          "reinit does not reset the whole state like init does: not established: %s (calls %s)" % (missing, [(e[2], e[3]) for e in ev]),
           relpath("%s:%d" % (g.file, g.line)))
     h = mod.fn("tinyjambu_hash")
     ex3 = make_exec(h)
@@ -331,3 +375,64 @@ def run_init(ck_ob, mod, label):
     ck_ob(okseq, "ONESHOT", h.name, "one-shot[%s]" % label, "hash(out,in,inlen) = init; update(in,inlen); finalize(out); free on one local state",
           "one-shot hash is not init; update(in,inlen); finalize(out); free: %s" % (desc,), relpath("%s:%d" % (h.file, h.line)))
     return 5
+
+
+def writable_globals_of(mod, is_root):
+    """writable globals referenced (directly or through constant expressions) by the functions reachable from the
+    root functions over direct calls"""
+    wr = {g["name"] for g in mod.globals if not g["constant"]}
+    if not wr:
+        return set()
+    todo = [f.name for f in mod.fns.values() if is_root(f.name) and f.blocks]
+    seen = set(todo)
+    found = set()
+
+    def scan(o):
+        if not isinstance(o, (tuple, list)) or not o:
+            return
+        if o[0] == "g" and o[1] in wr:
+            found.add(o[1])
+        elif o[0] == "ce":
+            for x in (o[2] or []):
+                scan(x)
+    while todo:
+        f = mod.fns[todo.pop()]
+        for I in f.real_insts():
+            for o in I.ops:
+                scan(tuple(o) if isinstance(o, list) else o)
+            if I.op == "call":
+                for a in I.call_args():
+                    scan(a)
+                if I.callee in mod.fns and I.callee not in seen and mod.fns[I.callee].blocks:
+                    seen.add(I.callee)
+                    todo.append(I.callee)
+    return found
+
+
+def premises(ck, mod, rule, label="H/N0", perm=True):
+    """the hash layer as a premise of a construction built on it (HMAC, HKDF, PBKDF2, PRNG): all C10/C11 rules
+    re-run and reported under the caller's rule id - if the hash is not the documented one, or does not stream, the
+    construction above it is not the documented one either"""
+    def ob(cond, r_, fn, cons, ok, bad, where=None):
+        return ck.ob(cond, rule, fn, cons, ok, bad, where=where)
+    n = run_init(ob, mod, label) + run_finalize(ob, mod, label) + run_update(ob, mod, label)
+    if perm:
+        from . import C05
+
+        class _R:
+            def __init__(self, ck_):
+                self._ck = ck_
+
+            def ob(self, cond, r_, *a, **k):
+                return self._ck.ob(cond, rule, *a, **k)
+
+            def ok(self, r_, *a, **k):
+                self._ck.ok(rule, *a, **k)
+
+            def bad(self, r_, *a, **k):
+                self._ck.bad(rule, *a, **k)
+
+            def __getattr__(self, n_):
+                return getattr(self._ck, n_)
+        C05.c_backend_rule(_R(ck), mod, "256", label)
+    return n
